@@ -13,7 +13,7 @@ LEVEL = "model_checking"
 
 
 def mc(ctx):
-    for k in ("store", "load", "assign"):
+    for k in ("store", "load", "assign", "all"):
         ctx.tlc_mc("MC_ILSem", "MC_ILSem_%s.cfg" % k, key="MC_ILSem ops=%s" % k, workers=8, heap="6g")
 
 
